@@ -232,6 +232,12 @@ func (st *c13State) program(i int, thorough bool) error {
 	c := st.c
 	seed := SubSeed(c.Seed, "c13", i)
 	prog := GenProg(seed)
+	if i%128 == 13 {
+		// a protocol with hundreds of small messages: counters, epochs and
+		// caches inside a generator wrap or fill up only then
+		prog = GenProgHuge(seed)
+		c.ev.Fire("huge_program", 1)
+	}
 	if i%32 == 31 {
 		// a program the compiler rejects (unknown or ill-valued option): the
 		// verdict and its message must not depend on the schedule either; this
@@ -288,11 +294,26 @@ func (st *c13State) program(i int, thorough bool) error {
 			scheds = append(scheds, c13Sched{name: "same-schedule-other-process", cfg: s0(), gmp: k % 3})
 		}
 	}
+	// garbage-collector pacing: the reference schedule in a fresh process whose
+	// collector never runs during a compilation (pooled and weakly held
+	// objects, finalizers and cleanups are never reclaimed) and in one whose
+	// collector runs all the time
+	gcN, gcC := s0(), s0()
+	gcN.ProcEnv = []string{"GOGC=off", "GOMEMLIMIT=3GiB"}
+	gcC.ProcEnv = []string{"GOGC=1"}
+	scheds = append(scheds, c13Sched{name: "gc-never", cfg: gcN}, c13Sched{name: "gc-constantly", cfg: gcC})
 	var r0b *Resp
 	for si, sd := range scheds {
 		rq := *req
 		rq.Sched = sd.cfg
-		ri, err := st.pools[sd.gmp].Do(&rq)
+		var ri *Resp
+		var err error
+		if len(sd.cfg.ProcEnv) > 0 {
+			ri, err = DoFresh(c.sc.Worker, &rq, 0)
+			c.ev.Fire("process_gc_pacing_"+sd.name, 1)
+		} else {
+			ri, err = st.pools[sd.gmp].Do(&rq)
+		}
 		if err != nil {
 			return err
 		}
@@ -324,7 +345,12 @@ func (st *c13State) program(i int, thorough bool) error {
 				}
 				rqb := rq
 				rqb.WantBytes = true
-				rib, err := st.pools[sd.gmp].Do(&rqb)
+				var rib *Resp
+				if len(sd.cfg.ProcEnv) > 0 {
+					rib, err = DoFresh(c.sc.Worker, &rqb, 0)
+				} else {
+					rib, err = st.pools[sd.gmp].Do(&rqb)
+				}
 				if err != nil {
 					return err
 				}
